@@ -24,7 +24,7 @@ class Hist:
         self.rng = rng
         self.ids = [1, 2, 3, 4][:rng.range(2, 4)]
         self.origins = rng.shuffle([1, 2, 3, 9])[:rng.range(1, 3)]
-        self.t = T0 + rng.below(10 ** 5) * 4
+        self.t = (0 if rng.chance(1, 6) else T0) + rng.below(10 ** 5) * 4   # one history in six starts at the datacake epoch (D17)
         self.allow_dups = allow_dups
         self.used = set()
         self.retry = None
@@ -36,7 +36,7 @@ class Hist:
             if k < 5: self.t += rng.choice([4, 1000, 60000]); base = self.t
             elif k < 8: base = self.t - rng.choice([4, 1000, 60000, F_MS - 4, F_MS, F_MS + 4, 2 * F_MS])
             else: base = self.t + rng.choice([F_MS, 2 * F_MS])
-            base = max(base, 4)
+            base = max(base, 0)
             st = pack(base, rng.below(3), rng.choice(self.origins))
             if st not in self.used:
                 self.used.add(st); return st
